@@ -252,6 +252,10 @@ func vhC39Supervision() {
 
 	err := p.prefork("127.0.0.1:0")
 	returned = true
+	// nothing prefork started outlives it: once the fate goroutine has seen
+	// `returned` (it sleeps 1.5 s at most) no other goroutine is left
+	time.Sleep(3 * time.Second)
+	vAssert("no-goroutine-outlives-prefork", vOtherGoroutines() == 0)
 
 	// every child this master started is gone and reaped when prefork returns
 	allGone, allReaped, signalled, killedEarly := true, true, true, false
